@@ -244,24 +244,25 @@ type Scenario struct {
 	AlwaysPreco          bool              // write the monthly precipitation-correction table even if the correction is off (a batch line may switch it on)
 	PrecoFactors         [12]float64
 	// WeatherFault (C04): the weather input does not cover the whole simulation ("", ends_early, gap, missing_year, starts_late)
-	WeatherFault         string
-	FaultFrom            Date // first day without a record
-	FaultTo              Date // last day without a record
-	OutInterval          int
-	ResultFormat         int // 0 hermes fixed width, 1 csv
-	ResultExt            string
-	MgmtEvents           int
-	AutoSow              bool
-	AutoFert             bool
-	AutoIrr              bool
-	AutoHarvest          bool
-	TillCollision        bool     `json:",omitempty"` // rewritten around the observed harvest: postponed tillage meets the next one
-	RotationEndsInside   bool     `json:",omitempty"` // no rotation entries behind the last crop sown inside the period
-	PermanentAfterAnnual bool     `json:",omitempty"` // a block of grass / alfalfa cuts follows annual crops
-	Automan              []string // lines of automan.txt (without header)
-	AutoRows             map[string]*AutoRow
-	CropParamYml         bool
-	VirtualDate          string
+	WeatherFault            string
+	FaultFrom               Date // first day without a record
+	FaultTo                 Date // last day without a record
+	OutInterval             int
+	ResultFormat            int // 0 hermes fixed width, 1 csv
+	ResultExt               string
+	MgmtEvents              int
+	AutoSow                 bool
+	AutoFert                bool
+	AutoIrr                 bool
+	AutoHarvest             bool
+	TillCollision           bool     `json:",omitempty"` // rewritten around the observed harvest: postponed tillage meets the next one
+	RotationEndsInside      bool     `json:",omitempty"` // no rotation entries behind the last crop sown inside the period
+	DeadlineOvertakesSowing bool     `json:",omitempty"` // automatic harvest only; a fixed sowing date just before the deadline of the standing crop
+	PermanentAfterAnnual    bool     `json:",omitempty"` // a block of grass / alfalfa cuts follows annual crops
+	Automan                 []string // lines of automan.txt (without header)
+	AutoRows                map[string]*AutoRow
+	CropParamYml            bool
+	VirtualDate             string
 
 	Tightened  bool // C16: rewritten around the observed first harvest (see c16Scenario)
 	DailyCols  []OutCol
@@ -729,6 +730,40 @@ func genWithProfile(prop string, seed uint64, idx int, r *Rng, p Profile) *Scena
 	genEvents(sc, r, p)
 	if r.Bool(p.AutoProb) {
 		genAuto(sc, r)
+	}
+	// C09 / C06 / C01, 5 % of the cases: harvest on demand with a deadline (automatic harvest only, sowing dates fixed), and a
+	// following crop whose fixed sowing date lies 0-3 days BEFORE the deadline of the standing crop: when the crop is not ripe
+	// earlier the deadline harvest overtakes the sowing date, which the model then has to move behind the harvest
+	if rh := NewRng(mix(mix(seed, uint64(idx)), 4343)); (prop == "C09" || prop == "C06" || prop == "C01") && rh.Bool(0.05) && !sc.AutoSow && !sc.AutoHarvest && !sc.AutoFert && !sc.AutoIrr {
+		save := *sc
+		genAuto(sc, NewRng(mix(mix(seed, uint64(idx)), 4344)))
+		sc.AutoSow, sc.AutoIrr, sc.AutoFert, sc.AutoHarvest = false, false, false, true
+		ok := false
+		for i := 2; i < len(sc.Rotation) && !ok; i++ {
+			prev, cur := &sc.Rotation[i-1], &sc.Rotation[i]
+			if isPerennial(prev.Crop) || isPerennial(cur.Crop) || prev.LatestHarv.Y == 0 || prev.LatestHarv.Zeit() >= sc.End.Zeit()-60 {
+				continue
+			}
+			sow := prev.LatestHarv.AddDays(-rh.Range(0, 3))
+			if sow.Zeit() <= prev.Sow.Zeit()+60 || sow.Zeit() >= cur.Harvest.Zeit()-60 {
+				continue
+			}
+			cur.Sow = sow
+			if prev.Harvest.Zeit() >= sow.Zeit() {
+				prev.Harvest = sow.AddDays(-1 - rh.Range(0, 5))
+			}
+			if prev.Harvest.Zeit() <= prev.Sow.Zeit() {
+				continue
+			}
+			ok = true
+		}
+		if ok {
+			sc.Till = nil
+			sc.rebuildAutoman()
+			sc.DeadlineOvertakesSowing = true
+		} else {
+			*sc = save
+		}
 	}
 	// a fifth of the rotations end with the last crop that is sown inside the period (no further entries behind it): the crop
 	// harvested last is then the last line of the rotation file
